@@ -1,0 +1,52 @@
+//go:build verif
+
+package client
+
+// Contracts for govc (see /verif/DESIGN.md). Compiled only with -tags verif.
+//
+// C28 kernel: the order of the two phases inside one TwoPhaseCommit call. The per-region
+// RPC helpers are TRUSTED abstract callees whose successful completions are counted in
+// ghost state: prewrites / commits count successes, commitAttempts counts calls,
+// commitsAtLastPrewrite remembers how many commits had succeeded when the latest
+// prewrite was issued.
+
+//@ ghost var prewrites Int
+//@ ghost var commits Int
+//@ ghost var commitAttempts Int
+//@ ghost var commitsAtLastPrewrite Int
+
+//@ func (*Client).prewriteRegion
+//@   trusted
+//@   ghost commitsAtLastPrewrite = commits
+//@   ghost prewrites = (result == nil ? prewrites + 1 : prewrites)
+//@   modifies nothing
+
+//@ func (*Client).commitRegion
+//@   trusted
+//@   ghost commitAttempts = commitAttempts + 1
+//@   ghost commits = (result == nil ? commits + 1 : commits)
+//@   modifies nothing
+
+//@ func (*Client).regionForKey
+//@   trusted
+//@   tag ghost-pure
+//@   modifies nothing
+//@ func cloneMutation
+//@   trusted
+//@   tag ghost-pure
+//@   modifies nothing
+//@ func collectKeys
+//@   trusted
+//@   tag ghost-pure
+//@   modifies nothing
+
+//@ func (*Client).TwoPhaseCommit
+//@   property C28
+//@   ensures [prewrite-before-commit] prewrites > old(prewrites) || commitsAtLastPrewrite != old(commitsAtLastPrewrite) ==> commitsAtLastPrewrite == old(commits)
+//@   ensures [failed-prewrite-no-commit] result != nil && commitAttempts == old(commitAttempts) ==> commits == old(commits)
+//@   ensures [failed-primary-commit-stops] commitAttempts == old(commitAttempts) + 1 && commits == old(commits) ==> result != nil
+//@   ensures [success-means-committed] result == nil && len(mutations) != 0 ==> commits >= old(commits) + 1 && prewrites >= old(prewrites) + 1
+//@   ensures [commits-only-grow] commits >= old(commits) && commitAttempts >= old(commitAttempts)
+//@   loop 2 invariant [still-prewriting] commits == old(commits) && commitAttempts == old(commitAttempts) && prewrites >= old(prewrites) + 1 && commitsAtLastPrewrite == old(commits)
+//@   loop 3 invariant [primary-committed] commits >= old(commits) + 1 && commitAttempts >= old(commitAttempts) + 1 && prewrites >= old(prewrites) + 1 && commitsAtLastPrewrite == old(commits) && commitAttempts - old(commitAttempts) == commits - old(commits)
+//@   loop 1 invariant [grouping] commits == old(commits) && commitAttempts == old(commitAttempts) && prewrites == old(prewrites) && commitsAtLastPrewrite == old(commitsAtLastPrewrite)
